@@ -229,8 +229,11 @@ class XExprEvaluator(ModelVisitor):
             self.is_x = True
             self.val = None
         else:
-            self.is_x = False
-            field.accept(self)
+            # The value is that of the selected element, so the
+            # index must be known as well
+            s.rhs.accept(self)
+            if not self.is_x:
+                s.subscript().accept(self)
             
     def visit_expr_in(self, e):
         e.lhs.accept(self)
